@@ -65,11 +65,16 @@ package transaction
 // object, whether its most recent updating pre-validation succeeded.
 //@ property C37
 //@ smt all (declare-ghost pv_ok (Array Iface Bool))
+// (pv_last / pv_last_ok: the transaction of the last PreValidate call and whether it was applied)
+//@ smt all (declare-ghost pv_last Iface)
+//@ smt all (declare-ghost pv_last_ok Bool)
 //@ func (tx Transaction) PreValidate(wc, update) (err)
 //@   iface
 //@   trusted
 //@   modifies *
 //@   opt ghost:pv_ok store(ghost(pv_ok), tx, ghost(pv_ok)[tx] || (err == nil && update))
+//@   opt ghost:pv_last_ok err == nil && update
+//@   opt ghost:pv_last tx
 //@ func (tx Transaction) Group() (g)
 //@   iface
 //@   trusted
